@@ -96,6 +96,20 @@ var envelopeCheck = &core.Check{Name: "c20/envelope", Quick: 1500, Thorough: 150
 		cell := cv.Interface().(boc.Cell)
 		value = &cell
 		c.Class("unknown operation (cell)")
+		if c.Intn("looked", 3) == 0 {
+			// the caller looked into the body before (at its operation code, at all bits, at a reference): the
+			// JSON form is that of the body, not of what the caller has not read yet
+			switch c.Choose("looked.how", 3) {
+			case 0:
+				_, _ = cell.ReadUint(min(32, cell.BitsAvailableForRead()))
+			case 1:
+				_, _ = cell.ReadBits(cell.BitsAvailableForRead())
+			case 2:
+				_, _ = cell.ReadBit()
+				_, _ = cell.NextRef()
+			}
+			c.Class("unknown operation (cell) that the caller read from before")
+		}
 	default:
 		if len(kinds) == 0 {
 			return nil
